@@ -44,7 +44,7 @@ MAXSITES = {'quick': 130, 'thorough': 200}
 
 
 def cases(tier, seed):
-    n = 48 if tier == 'quick' else 900
+    n = 48 if tier == 'quick' else 1400
     return [{'seed': seed, 'idx': i, 'hashseed': i % 5, 'tier': tier, 'kind': 'vacancy' if i % 5 < 3 else 'interstitial'}
             for i in range(n)]
 
